@@ -135,7 +135,7 @@ def speriodogram(x, NFFT=None, detrend=True, sampling=1.,
         else:
             res =  (abs (fft (x*w - m, NFFT, axis=-1))) ** 2. / r
 
-    if scale_by_freq is True:
+    if scale_by_freq:
         df = sampling / float(NFFT)
         res*= 2 * np.pi / df
 
@@ -248,7 +248,7 @@ class Periodogram(FourierSpectrum):
                              NFFT=self.NFFT, scale_by_freq=False,
                              detrend=self.detrend)
         self.psd = psd
-        if self.scale_by_freq is True:
+        if self.scale_by_freq:
             self.scale()
         return self
 
